@@ -39,7 +39,9 @@ def same_term(a, b):
 def register(R):
     # assumed contract of a botocore S3 client: any operation returns a response mapping or raises;
     # the service may have applied the call although it raised (fault after effect)
-    R.external('client', **{'*': ExtSpec(returns=ExtT('respdict'), raises=('Exception',), effect_on_raise=False)})
+    R.external('client', **{'*': ExtSpec(returns=ExtT('respdict'), raises=('Exception',), effect_on_raise=False),
+                            # the request itself can fail with a retryable connection / timeout error
+                            'get_object': ExtSpec(returns=ExtT('respdict'), raises=('Exception', 'socket.timeout'))})
     R.external('respdict', **{'[]': ExtSpec(returns=resp_item, pure=True)})
 
     # ------------------------------------------------------------------ CreateMultipartUploadTask
